@@ -68,7 +68,12 @@ func c9sigdropRun(a []string) string {
 	return fmt.Sprintf("%s,live=%d,pend=%d", r, nd.ledger.inner.VerifLiveSubscriptions(sid), pend)
 }
 
-func c9sigdrop(a []string) string { return c10cached("sigdrop", c9sigdropRun, a) }
+func c9sigdrop(a []string) string {
+	if c9RegistriesUnsafe.Load() {
+		return c9skipped
+	}
+	return c10cached("sigdrop", c9sigdropRun, a)
+}
 
 func init() {
 	ops["C09.sigdrop"] = c9sigdrop
